@@ -179,7 +179,9 @@ func (r RemoveIntersections) processObject(_ *Visitor, schema *ast.Schema, objec
 
 	if locatedObject.Type.IsStruct() {
 		newObject := object
-		newObject.Type = ast.NewStruct(locatedObject.Type.AsStruct().Fields...)
+		// the fields are copied: several aliases can refer to the same struct,
+		// they must not end up sharing their fields.
+		newObject.Type = ast.NewStruct(locatedObject.Type.AsStruct().DeepCopy().Fields...)
 		if object.Type.ImplementsVariant() {
 			newObject.Type.Hints[ast.HintImplementsVariant] = object.Type.ImplementedVariant()
 		}
